@@ -29,6 +29,8 @@ ASSUMPTIONS = [
     "a value that has no definition on a path (upward-exposed virtual register, RegisterUseDef(defs=(vreg,)) 'undefined value' marker, copy of "
     "such a value) may be read from anywhere on that path; a pre-coloured register holds its own value on entry",
     "RegisterUseDef emits no code: its definitions do not invalidate the locations of its own uses (ppci's 'view part of a register' idiom)",
+    "on targets whose register classes do not implement from_num (riscv, stm8) the location is the unique register of the virtual register's class "
+    "hierarchy in arch.info.register_classes whose number equals the colour",
     "frames on which alloc_frame raises (e.g. 'Give up after 30 spill rounds') are counted, not judged (that is property C29)",
     "hand-built frames use a stub instruction selector that answers MiniGen's spill trees with abstract slot-load / slot-store instructions",
 ]
@@ -649,9 +651,29 @@ class Recorder:
                 return None
             try:
                 p = type(r).from_num(r.color)
+            except NotImplementedError:
+                p = by_num(r)
             except Exception:  # noqa
                 return None
+            if p is None:
+                return None
             return loc_of_phys(p)
+
+        bynum_cache = {}
+
+        def by_num(r):
+            """targets without from_num (riscv, stm8): the register of r's class hierarchy whose number is r's colour"""
+            key = (type(r), r.color)
+            if key not in bynum_cache:
+                cands = []
+                for rc in arch.info.register_classes:
+                    for c in rc.registers or []:
+                        if c._num == r.color and (isinstance(c, type(r)) or isinstance(r, type(c))) and c not in cands:
+                            cands.append(c)
+                exact = [c for c in cands if type(c) is type(r)]
+                pick = exact or cands
+                bynum_cache[key] = pick[0] if len(pick) == 1 else None
+            return bynum_cache[key]
 
         slot_ix = {}
         slots = []
@@ -1207,7 +1229,9 @@ def compile_real(target, src, level):
     from ppci.api import cc, get_arch
 
     def go():
-        return cc(io.StringIO(src), get_arch(target), opt_level=level)
+        import contextlib
+        with contextlib.redirect_stdout(io.StringIO()), contextlib.redirect_stderr(io.StringIO()):     # the C front end prints warnings
+            return cc(io.StringIO(src), get_arch(target), opt_level=level)
     return record(go)
 
 
